@@ -45,7 +45,7 @@ func pickOp(t *rapid.T, info *SpecInfo, pred func(OpInfo) bool) (OpInfo, bool) {
 	if len(c) == 0 {
 		return OpInfo{}, false
 	}
-	return c[rapid.IntRange(0, len(c)-1).Draw(t, "editop")], true
+	return PickUniform(t, c, "editop"), true
 }
 
 func renamePath(doc map[string]any, info *SpecInfo, old, new string) {
@@ -447,17 +447,34 @@ func ApplyRuleEdit(t *rapid.T, name string, doc map[string]any, info *SpecInfo) 
 				}
 				fix(it)
 				paths[third] = it
-				info.Placeholders[third] = []string{"third"}
+				var thirdHolders []string
+				for _, n := range info.Placeholders[p] {
+					if n == "other" {
+						n = "third"
+					}
+					thirdHolders = append(thirdHolders, n)
+				}
+				info.Placeholders[third] = thirdHolders
 				return true
 			}
 		}
 		return true
 	case "overlappingPaths":
-		oi, ok := pickOp(t, info, func(o OpInfo) bool { return len(info.Placeholders[o.Path]) == 1 && strings.HasSuffix(o.Path, "}") })
+		// a twin of a templated path that differs only in the name of one placeholder (anywhere in the template)
+		oi, ok := pickOp(t, info, func(o OpInfo) bool {
+			ph := info.Placeholders[o.Path]
+			for _, n := range ph {
+				if n == "other" || n == "third" || strings.Count(o.Path, "{"+n+"}") != 1 {
+					return false
+				}
+			}
+			return len(ph) > 0
+		})
 		if !ok {
 			return false
 		}
-		old := info.Placeholders[oi.Path][0]
+		holders := info.Placeholders[oi.Path]
+		old := PickUniform(t, holders, "renamedplaceholder")
 		twin := strings.Replace(oi.Path, "{"+old+"}", "{other}", 1)
 		it := Clone(pathItem(doc, oi.Path)).(map[string]any)
 		// rename the path parameter everywhere in the copied item and give fresh operation ids
@@ -484,7 +501,14 @@ func ApplyRuleEdit(t *rapid.T, name string, doc map[string]any, info *SpecInfo) 
 		}
 		fix(it)
 		doc["paths"].(map[string]any)[twin] = it
-		info.Placeholders[twin] = []string{"other"}
+		var twinHolders []string
+		for _, n := range holders {
+			if n == old {
+				n = "other"
+			}
+			twinHolders = append(twinHolders, n)
+		}
+		info.Placeholders[twin] = twinHolders
 		return true
 	case "invalidPatternParam":
 		oi, ok := pickOp(t, info, nil)
